@@ -364,13 +364,17 @@ def prove_close(ctx: Ctx, name, fn, args, sp: Space, *, eps=1e-9, select=None, s
     rows = []
     selflat = sel.reshape(-1)
     cand = np.nonzero(selflat & (dm > 0))[0]
+    cand = cand[np.argsort(-dm[cand], kind='stable')]       # heaviest residual rows first
     for rid in cand:
       s, e = M.indptr[rid], M.indptr[rid + 1]
       const, cols, vals, slack, L, H = _row_query_terms(sp, M.indices[s:e], M.data[s:e], taus[rid])
       rows.append((int(rid), const, cols, vals, slack, float(taus[rid]), L, H))
     nrows += int(selflat.sum())
-    for i in range(0, len(rows), batch):
-      chunk = rows[i:i + batch]
+    bounds_ = [0, 1, 9] + list(range(9 + batch, len(rows) + batch, batch))
+    for i, j in zip(bounds_[:-1], bounds_[1:]):
+      chunk = rows[i:j]
+      if not chunk:
+        break
       text, ycols = _lra_batch(sp, chunk)
       verdict, model = smt.check_text(text, 'QF_LRA', want_model=True)
       nq += 1
